@@ -28,7 +28,7 @@ RULE = ("case = (start state(s), operation list). Start: lasio.LASFile() with n 
         "mnemonic / both / missing / out of range), update_curve (ix / mnemonic / both; any subset of data, unit, descr, "
         "value), replace_curve_item (ix incl. negative), las[k]=ndarray (existing / new key), las[k]=CurveItem (existing "
         "/ new / mismatching key), set_data (n x w array, w = len..len+2; names None / shorter / equal / with "
-        "duplicates; truncate False/True); mnemonics from {A, B, a, '', DEPT, 'A:1' (a name that looks like a numbered key; a key held twice addresses the first holder)}; every array carries values unique in "
+        "duplicates; truncate False/True; one call in eight with an array of zero rows, which only renumbers); one array in eight is a text curve ('t5001'); mnemonics from {A, B, a, '', DEPT, 'A:1' (a name that looks like a numbered key; a key held twice addresses the first holder)}; every array carries values unique in "
         "the run, so a displaced curve is visible. A state machine generates histories of <= 25 (quick) steps; all "
         "sequences of <= 3 operations (thorough: <= 4 on two of the start states) over a 28-letter symbolic operation "
         "alphabet are enumerated on 4 start states (and <= 2, thorough <= 3, on 3 pairs). After every step every view (curves list, "
@@ -111,8 +111,12 @@ class OutOfDomain(Exception):
 # the model
 
 
+def num_or_text(x):
+    return x if isinstance(x, str) else float(x)
+
+
 def rec(m, d, u="", de="", v=""):
-    return dict(orig=m, unit=u, value=v, descr=de, data=[float(x) for x in d])
+    return dict(orig=m, unit=u, value=v, descr=de, data=[num_or_text(x) for x in d])
 
 
 class Model(object):
@@ -189,7 +193,7 @@ def model_apply(M, op, n):
                 return "ValueError"
         r = M.recs[ix]
         if "d" in op:
-            r["data"] = [float(x) for x in op["d"]]
+            r["data"] = [num_or_text(x) for x in op["d"]]
         if "u" in op:
             r["unit"] = op["u"]
         if "de" in op:
@@ -206,7 +210,7 @@ def model_apply(M, op, n):
         if ix is None:
             M.insert(L, rec(op["k"], op["d"]))
         else:
-            M.recs[ix]["data"] = [float(x) for x in op["d"]]
+            M.recs[ix]["data"] = [num_or_text(x) for x in op["d"]]
     elif k == "setitem_item":
         it = op["item"]
         if op["k"] != useful(it["m"]):  # session mnemonic of a freshly built item
@@ -219,6 +223,11 @@ def model_apply(M, op, n):
             M.replace(ix, r)
     elif k == "set_data":
         rows = op["rows"]
+        if op.get("zero_w") is not None:
+            # an array without rows carries nothing to set: `data.size > 0` guards both the extension of the curve list
+            # and the assignment loop of set_data; what remains is the closing renumbering of all session names
+            M.names.renumber_all()
+            return None
         if len(rows) != n or len({len(rw) for rw in rows}) != 1:
             raise OutOfDomain("set_data array must be n x w")
         w = len(rows[0])
@@ -312,6 +321,8 @@ def optag(op, M):
             return k + "(mismatch)"
         return k + ("(existing)" if M.find(op["k"]) is not None else "(new)")
     if k == "set_data":
+        if op.get("zero_w") is not None:
+            return k + "(zero-rows)"
         return k + ("(truncate)" if op.get("truncate") else "(names)" if op.get("names") is not None else "")
     return k
 
@@ -321,6 +332,8 @@ def optag(op, M):
 
 
 def arr(lst):
+    if any(isinstance(x, str) for x in lst):
+        return np.array(lst)  # a text curve
     return np.array(lst, dtype=float)
 
 
@@ -383,6 +396,8 @@ def lasio_apply(las, op, shared=None):
             kw["names"] = list(op["names"])
         if op.get("truncate"):
             kw["truncate"] = True
+        if op.get("zero_w") is not None:
+            return attempt(las.set_data, np.empty((0, op["zero_w"])), **kw)
         return attempt(las.set_data, arr2(op["rows"], len(op["rows"])), **kw)
     raise OutOfDomain("unknown op %r" % k)
 
@@ -392,6 +407,9 @@ def aslist(x):
         a = np.asarray(x)
         if a.ndim != 1:
             return "<array of shape %r>" % (a.shape,)
+        if a.dtype.kind in "USO":
+            # a text curve stays text ('t5001'), and numbers turned into text ('1000.0') are not the numbers of the model
+            return [v if isinstance(v, str) else float(v) for v in a.tolist()]
         return [float(v) for v in a.tolist()]
     except Exception as e:  # noqa  (text data etc.: rendered, never equal to a model array)
         return "<unreadable %s>" % type(e).__name__
@@ -451,7 +469,13 @@ def diff_views(las, M, n):
         d = np.asarray(get("data", lambda: las.data))
         if d.shape != (n, L):
             return "data", "las.data.shape = %r, model (%d, %d)" % (d.shape, n, L)
-        for i in range(L):
+        if d.dtype.kind in "US" and any(isinstance(v, str) for e in exp_data for v in e):
+            # with a text curve in the list the 2-D array has one common (text) type: column i equals curve i converted
+            # to that type, which is what numpy itself makes of the model's arrays
+            exp2d = np.vstack([arr(e) for e in exp_data]).T
+            if d.tolist() != exp2d.tolist():
+                return "data", "las.data = %r, the model's arrays stacked give %r" % (d.tolist(), exp2d.tolist())
+        for i in range(L if d.dtype.kind not in "US" else 0):
             if aslist(d[:, i]) != exp_data[i]:
                 return "data", "las.data[:, %d] = %r, model curve %d = %r" % (i, aslist(d[:, i]), i, exp_data[i])
     for i in range(-L, L):
@@ -710,6 +734,12 @@ def make_machine(ctx, pair):
         def live(self):
             return self.S is not None and not self.S.dead
 
+        def newdata(self, data):
+            d = unique1(self.fresh(), self.S.n)
+            if data.draw(st.integers(0, 7)) == 0:
+                d = ["t%d" % x for x in d]  # a text curve: values(), items(), indexing still return the curve's own array
+            return d
+
         # -- rules --------------------------------------------------------------------
         @rule(data=st.data())
         def append_curve(self, data):
@@ -717,14 +747,14 @@ def make_machine(ctx, pair):
                 return
             t, M = self.target(data)
             self.push(dict(op="append_curve", t=t, m=data.draw(st.sampled_from(NAMES)),
-                           d=unique1(self.fresh(), self.S.n), **self.fields(data)))
+                           d=self.newdata(data), **self.fields(data)))
 
         @rule(data=st.data())
         def append_shared(self, data):
             """One array object given to both LASFiles (or twice to the same one)."""
             if not self.live():
                 return
-            d = unique1(self.fresh(), self.S.n)
+            d = self.newdata(data)
             for t in ([0, 1] if pair else [0, 0]):
                 if self.live():
                     self.push(dict(op="append_curve", t=t, m=data.draw(st.sampled_from(NAMES)), d=d, share=True, **self.fields(data)))
@@ -737,7 +767,7 @@ def make_machine(ctx, pair):
             L = len(M)
             ix = data.draw(st.sampled_from([0, L, L // 2, -1, -2, L + 2, 1, -L - 1, -L - 2, -2 * L]))  # a list clamps
             self.push(dict(op="insert_curve", t=t, ix=ix, m=data.draw(st.sampled_from(NAMES)),
-                           d=unique1(self.fresh(), self.S.n), **self.fields(data)))
+                           d=self.newdata(data), **self.fields(data)))
 
         @rule(data=st.data())
         def delete_curve(self, data):
@@ -765,7 +795,7 @@ def make_machine(ctx, pair):
                 op["m"] = self.key(data, M, exact_only=True)
             what = data.draw(st.integers(1, 15))
             if what & 1:
-                op["d"] = unique1(self.fresh(), self.S.n)
+                op["d"] = self.newdata(data)
             if what & 2:
                 op["u"] = data.draw(st.sampled_from(UNITS))
             if what & 4:
@@ -775,7 +805,7 @@ def make_machine(ctx, pair):
             self.push(op)
 
         def new_item(self, data, m):
-            return dict(m=m, d=unique1(self.fresh(), self.S.n), **self.fields(data))
+            return dict(m=m, d=self.newdata(data), **self.fields(data))
 
         @rule(data=st.data())
         def replace_curve_item(self, data):
@@ -795,7 +825,7 @@ def make_machine(ctx, pair):
                 return
             t, M = self.target(data)
             self.push(dict(op="setitem_array", t=t, k=self.key(data, M, exact_only=False),
-                           d=unique1(self.fresh(), self.S.n)))
+                           d=self.newdata(data)))
 
         @rule(data=st.data())
         def setitem_item(self, data):
@@ -831,6 +861,9 @@ def make_machine(ctx, pair):
                 cnt = final if mode != "short" else data.draw(st.integers(1, final))
                 pool = NAMES if mode != "dups" else ["A", "A", "a", ""]
                 names = [data.draw(st.sampled_from(pool)) for _ in range(cnt)]
+            if data.draw(st.integers(0, 7)) == 0:
+                self.push(dict(op="set_data", t=t, rows=[], zero_w=w, names=names, truncate=truncate))
+                return
             self.push(dict(op="set_data", t=t, rows=unique2(self.fresh(), self.S.n, w), names=names,
                            truncate=truncate))
 
